@@ -250,4 +250,41 @@ Rich(T, env, f) ==
     [] OTHER -> Mem1(T, env, f)
 
 Probe(T, env, fuel, cap) == Take(Cand(T, env, fuel), cap) \cup AtomPool \cup Take(Hostile(T, env, fuel), 16) \cup Take(Faults(T, env, fuel), 40) \cup Take(Rich(T, env, fuel), 24)
+\* ------------------------------------------------------------------ twins
+\* Near-copies of a type: one attribute changed (a literal, the optional mark of a property, the presence of a rest element or of an
+\* index signature, one member of a union, the key and value of a Map, a constructor name, one format).  The family "twin" puts a
+\* type and one of its twins into ONE program, in both orders ({ a: T, b: T' } and { a: T', b: T }): whatever the compiler shares
+\* between equal-looking sub-validators (hoisted constants, dispatch tables, named references) must tell them apart.
+RECURSIVE Twins(_)
+Twins(T) ==
+  CASE T.t = "prim"  -> IF T.p = "string" THEN {TNumber} ELSE IF T.p = "number" THEN {TString} ELSE IF T.p = "null" THEN {TUndef} ELSE {}
+    [] T.t = "lit"   -> IF T.v.k = "str" THEN {LS(T.v.s \o "x")} ELSE IF T.v.k = "num" THEN {LN("2"), LN("1")} \ {T} ELSE {}
+    [] T.t = "arr"   -> {Arr(x) : x \in Twins(T.e)}
+    [] T.t = "set"   -> {SetT(x) : x \in Twins(T.e)}
+    [] T.t = "map"   -> ({MapT(T.vt, T.kt)} \ {T}) \cup {MapT(T.kt, x) : x \in Twins(T.vt)}
+    [] T.t = "ta"    -> {TaT("Int8Array"), TaT("Uint8ClampedArray")} \ {T}
+    [] T.t = "tuple" -> {IF T.r = <<>> THEN [T EXCEPT !.r = <<TString>>] ELSE [T EXCEPT !.r = <<>>]}
+                        \cup UNION {{[T EXCEPT !.es[i] = x] : x \in Twins(T.es[i])} : i \in DOMAIN T.es}
+    [] T.t = "obj"   -> {[T EXCEPT !.ps[i].opt = ~@] : i \in DOMAIN T.ps}
+                        \cup UNION {{[T EXCEPT !.ps[i].ty = x] : x \in Twins(T.ps[i].ty)} : i \in DOMAIN T.ps}
+                        \cup (IF T.ix # <<>> THEN {[T EXCEPT !.ix = <<>>]} \cup {[T EXCEPT !.ix[1].vt = x] : x \in Twins(T.ix[1].vt)}
+                              ELSE {[T EXCEPT !.ix = <<Ix(TString, TString)>>]})
+    [] T.t \in {"union", "inter"} ->
+                        (IF Len(T.ms) > 2 THEN {[T EXCEPT !.ms = SubSeq(T.ms, 1, Len(T.ms) - 1)]} ELSE {})
+                        \cup UNION {{[T EXCEPT !.ms[i] = x] : x \in Twins(T.ms[i])} : i \in DOMAIN T.ms}
+    [] T.t \in {"sfmt", "nfmt"} -> IF Len(T.fs) > 1 THEN {[T EXCEPT !.fs = SubSeq(T.fs, 1, 1)]} ELSE {}
+    [] T.t = "tpl"   -> {Tpl(T.parts \o <<TpLit("x")>>)}
+    [] OTHER -> {}
+RECURSIVE Closed(_)
+Closed(T) ==
+  CASE T.t \in {"ref", "app", "param"} -> FALSE
+    [] T.t \in {"arr", "set"} -> Closed(T.e)
+    [] T.t = "map" -> Closed(T.kt) /\ Closed(T.vt)
+    [] T.t = "tuple" -> (\A i \in DOMAIN T.es : Closed(T.es[i])) /\ (\A i \in DOMAIN T.r : Closed(T.r[i]))
+    [] T.t = "obj" -> (\A i \in DOMAIN T.ps : Closed(T.ps[i].ty)) /\ (\A i \in DOMAIN T.ix : Closed(T.ix[i].kt) /\ Closed(T.ix[i].vt))
+    [] T.t \in {"union", "inter"} -> \A i \in DOMAIN T.ms : Closed(T.ms[i])
+    [] T.t = "deco" -> Closed(T.a)
+    [] OTHER -> TRUE
+
+
 =============================================================================
